@@ -2,7 +2,7 @@ from common import LEAN_TB
 
 CHECK = {
     "title": "apko's own text formats round-trip",
-    "modules": ["Apko.Proofs.Lemmas.Formats", "Apko.Proofs.Lemmas.FormatsFold", "Apko.Proofs.Lemmas.FormatsIndex", "Apko.Proofs.Lemmas.FormatsPasswd", "Apko.Proofs.C16"],
+    "modules": ["Apko.Proofs.Lemmas.Formats", "Apko.Proofs.Lemmas.FormatsFold", "Apko.Proofs.Lemmas.FormatsIndex", "Apko.Proofs.Lemmas.FormatsPasswd", "Apko.Proofs.Lemmas.FormatsPath", "Apko.Proofs.Lemmas.FormatsSort", "Apko.Proofs.Lemmas.FormatsIdbFiles", "Apko.Proofs.Lemmas.FormatsIdb", "Apko.Proofs.Lemmas.FormatsIdbSample", "Apko.Proofs.C16"],
     "suites": [("formats", 6000, 300000)],
     "budget_quick": 100,
     "fact_prefixes": ["apkindex.go", "package.go", "installed.go", "passwd.go", "group.go", "common.go"],
